@@ -527,6 +527,29 @@ def rule_config(program, ctx, prop=P, rid="C03.config"):
         raise AnalysisError("no read of the `validators` option found")
 
 
+def rule_ack_sites(program, ctx, prop=P, rid="C03.acksites"):
+    ctx.rule(
+        rid,
+        "an OK acknowledgement is only ever sent for an event that went through storage.add_event: in start_client every ws_send of a frame whose head is \"OK\" sits in the "
+        "EVENT branch (after add_event, or in its rate-limit refusal with False) - an OK built elsewhere (e.g. for an AUTH event, which is checked by Event.verify() alone) "
+        "acknowledges an id that nobody compared with the hash of the event",
+        floor=1,
+    )
+    from ..lib import guard_atoms
+    sc = program.func("nostr_relay.web:start_client")
+    n = 0
+    for c in walk_no_nested(sc):
+        if isinstance(c, ast.List) and c.elts and isinstance(c.elts[0], ast.Constant) and c.elts[0].value == "OK":
+            n += 1
+            atoms = [ast.unparse(e) for e, pol in guard_atoms(c, stop=sc) if pol]
+            if any(a.replace(" ", "") in ("command=='EVENT'", "'EVENT'==command") for a in atoms):
+                ctx.ok(rid, c, "OK frame in the EVENT branch")
+            else:
+                ctx.bad(finding_at(prop, rid, c, f"an OK frame `{ast.unparse(c)[:60]}` is built outside the EVENT branch: the id it acknowledges was not checked by the admission pipeline"))
+    if not n:
+        raise AnalysisError("start_client builds no OK frame")
+
+
 def rule_verbatim(program, ctx, prop=P, rid="C03.verbatim"):
     from ..lib import concrete_add_events
 
@@ -563,6 +586,11 @@ def run(program, ctx):
     rule_stored(program, ctx)
     rule_chain(program, ctx)
     rule_verbatim(program, ctx)
+    rule_ack_sites(program, ctx)
+    from . import c01 as _c01
+
+    # the tag indexer runs between validation and the broadcast: it must read the tags, not rewrite them
+    _c01.rule_tagindex(program, ctx, prop=P, rid="C03.tagindex")
     rule_defaults(program, ctx)
     rule_is_signed(program, ctx)
     rule_id(program, ctx)
